@@ -179,7 +179,7 @@ def _worker(args):
         # 1. replay tier (saved inputs: /verif/regress/<ID>/*.json) then explicit / enumerated cases, sharded
         import glob as _glob, itertools as _it
         saved = []
-        for rp in sorted(_glob.glob(os.path.join(VERIF, 'regress', pid, '*.json'))):
+        for rp in ([] if os.environ.get('VERIF_NO_REGRESS') else sorted(_glob.glob(os.path.join(VERIF, 'regress', pid, '*.json')))):  # (selftest aid)
             try:
                 d = json.load(open(rp))
                 saved.append(d['case'] if 'case' in d else d)
